@@ -33,6 +33,8 @@ U6 cmd_upload.run calls upload_full_tree() (which deletes nothing) only under th
 reassigns it.
 U7 (third round) is_ignored decides on whole path components: glob.match on the path and on its os.path.dirname ancestors; no
    startswith/find/`in` test of one path string against another without a trailing separator.
+U8 (fourth round) at both BzrUploader(...) constructions the tree argument is revision_tree(<the revision id argument>). U9 _uploaded_revid is
+   assigned only inside BzrUploader's own methods (who-may-write).
 Does not decide: equality of the remote directory with the tree (values), the full-upload path, remote transport semantics.
 """
 CATS = ["removed", "renamed", "kind_changed", "added", "modified"]
@@ -182,8 +184,33 @@ def run(ctx):
         if isinstance(n, ast.Compare) and any(isinstance(o, (ast.In, ast.NotIn)) for o in n.ops) and isinstance(n.left, ast.Name) and all(isinstance(cm, ast.Name) for cm in n.comparators) and any(cm.id in ("relpath", "path", "dir") for cm in n.comparators):
             loose.append(f"L{n.lineno}:{norm(n)[:60]}")
     ctx.check("U7-ignore-on-whole-components", wi, any(call_attr(c) == "match" for c in calls_in(fi)) and any(call_attr(c) == "dirname" for c in calls_in(fi)) and not loose, "is_ignored matches the path and its dirname() ancestors against the patterns; no string-prefix test without a path separator", construct="; ".join(loose), message=f"is_ignored decides with a plain string prefix/substring test ({'; '.join(loose)}): a path that merely shares a name prefix with an ignored directory (cache-control/x beside an ignored cache) counts as ignored and is silently not uploaded, refreshed or deleted while the marker advances")
+    # ---- U8: the tree that is uploaded is the tree of the revision the marker will name ----------------------------------
+    n_ctor = 0
+    for rel_ in (UP, "breezy/plugins/upload/__init__.py"):
+        for q_, f_ in repo.module(rel_).functions().items():
+            for c in calls_in(f_):
+                if norm(c.func).split(".")[-1] != U or len(c.args) < 5:
+                    continue
+                n_ctor += 1
+                tree_a, rev_a = c.args[3], c.args[4]
+                srcs = [a.value for a in ast.walk(f_) if isinstance(a, ast.Assign) and isinstance(tree_a, ast.Name) and any(isinstance(t, ast.Name) and t.id == tree_a.id for t in a.targets)] or [tree_a]
+                ok8 = all(isinstance(v_, ast.Call) and call_attr(v_) == "revision_tree" and len(v_.args) == 1 and norm(v_.args[0]) == norm(rev_a) for v_ in srcs)
+                ctx.check("U8-tree-of-the-marker-revision", f"{rel_}:{q_}", ok8, f"the tree handed to {U} is revision_tree({norm(rev_a)}), the revision it will record as uploaded", construct="; ".join(norm(v_)[:60] for v_ in srcs), message=f"{q_} hands {U} a tree that is not always `revision_tree({norm(rev_a)})` ({'; '.join(norm(v_)[:50] for v_ in srcs)}): when the two differ (a working tree behind its branch tip) the remote receives one revision's files while the marker records another — later incremental uploads start from the wrong state and never repair it")
+    ctx.require(n_ctor >= 2, f"{U}(…) constructions found: {n_ctor} (expected cmd_upload.run and the auto-upload hook)")
+    # ---- U9: what the remote holds is learned from the remote (or from our own write), nothing else plants it ------------
+    planted = []
+    for rel_ in repo.python_files(sub="breezy/plugins/upload"):
+        for q_, f_ in repo.module(rel_).functions().items():
+            if q_.startswith(U + "."):
+                continue
+            for a in ast.walk(f_):
+                if isinstance(a, (ast.Assign, ast.AugAssign)) and any(isinstance(t, ast.Attribute) and t.attr == "_uploaded_revid" for t in (a.targets if isinstance(a, ast.Assign) else [a.target])):
+                    planted.append(f"{rel_}:{q_}: {norm(a)[:60]}")
+    ctx.check("U9-uploaded-revid-only-from-remote", f"{UP}:{U}", not planted, f"only {U}'s own methods (get_uploaded_revid reading the marker, set_uploaded_revid after writing it) assign _uploaded_revid", construct="; ".join(planted), message=f"`{planted[0] if planted else ''}` plants the cached uploaded revision from outside {U}: the delta is computed from a remembered revision instead of the marker the remote holds — after the remote was changed by another upload the incremental upload leaves files missing while the marker says it is current")
+
 
 MUTANTS = [
+    Mutant("auto upload hook uploads the basis tree of the working tree", "breezy/plugins/upload/__init__.py", "        source_branch, to_transport, sys.stdout, last_tree, last_revision, quiet=quiet\n", "        source_branch, to_transport, sys.stdout, source_branch.basis_tree(), last_revision, quiet=quiet\n", expect="U8-tree-of-the-marker-revision"),
     Mutant("ignored-directory shortcut by string prefix", UP, "        glob = self._get_ignored()\n        ignored = glob.match(relpath)\n", "        glob = self._get_ignored()\n        if any(relpath.startswith(d_) for d_ in getattr(self, '_seen_ignored', ())):\n            return True\n        ignored = glob.match(relpath)\n", expect="U7-ignore-on-whole-components"),
     Mutant("removed file kept when a file is added at the same path", UP, "                if change.kind[0] == \"file\":\n                    self.delete_remote_file(change.path[0])\n                elif change.kind[0] == \"directory\":\n                    self.delete_remote_dir_maybe(change.path[0])\n", "                if change.kind[0] == \"file\":\n                    if change.path[0] in {c.path[1] for c in changes.added}:\n                        continue\n                    self.delete_remote_file(change.path[0])\n                elif change.kind[0] == \"directory\":\n                    self.delete_remote_dir_maybe(change.path[0])\n", expect="U5-no-change-skipped"),
     Mutant("diverged overwrite silently becomes a full upload", UP, "            if full:\n                uploader.upload_full_tree()\n", "            if overwrite:\n                full = True\n            if full:\n                uploader.upload_full_tree()\n", expect="U6-full-upload-only-on-request"),
